@@ -162,7 +162,7 @@ def _run_case(case):
                 outcome, detail = 'server-error', f'{type(e).__name__}: {e}'
     else:
         o = body_request(wire, case['sched'], B=B, chunked=True, tempmode=case['temp'], touch=('body',),
-                         retry=bool(case.get('retry')))
+                         retry=(3 if case.get('retry') else 0))
         stream = o.stream
         log('status', o.resp.status)
         if 'retry_body' in o.seen:
